@@ -44,7 +44,7 @@ for p in props:
         continue
     engines_serves.append(pid)
     scope, declined = NOTES[pid]
-    rules = ", ".join(r for r, _, _ in mod.RULES)
+    rules = ", ".join(dict.fromkeys(r for r, _, _ in mod.RULES))
     checks.append(
         {
             "property_id": pid,
